@@ -73,6 +73,7 @@ pub struct NetState {
     pub delivered_to_broker: usize,
     pub last_c2s_at: u64,
     pub dropped: bool,
+    pub dropped_stamp: u64,
     pub registered: bool,
     pub stats: NetStats,
     /// total bytes ever pushed into inbound (for stamping last inbound time)
@@ -102,6 +103,7 @@ pub fn new_net(cfg: NetCfg) -> Net {
         delivered_to_broker: 0,
         last_c2s_at: 0,
         dropped: false,
+        dropped_stamp: 0,
         registered: false,
         stats: NetStats::default(),
         last_inbound_ns: 0,
@@ -185,6 +187,7 @@ impl Drop for SimStream {
     fn drop(&mut self) {
         let mut n = self.net.lock().unwrap();
         n.dropped = true;
+        n.dropped_stamp = simrt::stamp();
         n.set_readiness = None;
         simrt::trace("stream.drop", 0, 0);
     }
